@@ -1210,6 +1210,8 @@ func KeyVariant(r *rand.Rand, t *Type, doc map[string]any, mode string) map[stri
 				nk = snake(k)
 			case "flip":
 				nk = flipInitial(k)
+			case "upper":
+				nk = strings.ToUpper(k)
 			}
 		}
 		if f != nil {
